@@ -37,32 +37,12 @@ def run_driver(lines):
 
 
 def model_line(scen):
-    keys = ('id', 'env', 'op', 'ty', 'val', 'handlers', 'name', 'style', 'tys', 'args', 'kwargs', 'cls', 'decls', 'obj', 'set', 'set_only', 'rename', 'frozen', 'deep')
+    keys = ('id', 'env', 'op', 'ty', 'val', 'handlers', 'name', 'style', 'tys', 'args', 'kwargs', 'cls', 'decls', 'obj', 'set', 'set_only', 'rename', 'frozen', 'deep', 'a', 'b', 'akey', 'bkey', 'explicit_hash', 'eq_opt', 'order_opt')
     return json.dumps({k: scen[k] for k in keys if k in scen}, ensure_ascii=False)
 
 
 def compare(scen, ctx, impl_out, model_out):
-    """-> None if they agree, else a short description"""
-    if 'driverError' in model_out:
-        return 'driverError: ' + model_out['driverError']
-    m = model_out.get('out')
-    i = impl_out
-    if isinstance(i, dict) and 'classCreateError' in i:
-        return None   # the declared class is refused at creation (compared by the `process` op, not here)
-    if scen['op'] == 'render' and isinstance(m, dict) and 'text' in m and isinstance(i, dict) and 'text' in i:
-        mt = m['text']
-        if mt != i['text']:
-            return 'text differs:\n--- model\n' + mt + '\n--- impl\n' + i['text']
-        if canon(m.get('tree')) != canon(i.get('tree')):
-            return 'tree differs'
-        return None
-    cm, ci = canon(m), canon(i)
-    if scen['op'] == 'roundtrip' and has_set_type(scen):
-        # serialised sets come out in hash order: compare `d`/`d2` up to list order (C05: "up to set ordering")
-        cm, ci = sort_lists_in(cm, ('d', 'd2')), sort_lists_in(ci, ('d', 'd2'))
-    if cm != ci:
-        return 'outputs differ'
-    return None
+    return compare_projected(scen, impl_out, model_out, lambda o: o)
 
 
 def has_set_type(scen):
@@ -96,6 +76,10 @@ def compare_projected(scen, impl_out, model_out, projectfn):
     cm, ci = canon(m), canon(i)
     if scen['op'] == 'roundtrip' and has_set_type(scen):
         cm, ci = sort_lists_in(cm, ('d', 'd2')), sort_lists_in(ci, ('d', 'd2'))
+    if scen['op'] == 'dictview' and scen.get('set_only'):
+        # dict(set_only=True) iterates a set of names: item order is hash order
+        srt = lambda o: {'ok': {'d': sorted(o['ok']['d'], key=lambda kv: json.dumps(kv))}} if isinstance(o, dict) and isinstance(o.get('ok'), dict) and 'd' in o['ok'] else o
+        cm, ci = srt(cm), srt(ci)
     if cm != ci:
         if scen['op'] == 'render' and isinstance(cm, dict) and isinstance(ci, dict) and cm.get('text') != ci.get('text'):
             return 'text differs:\n--- model\n' + str(cm.get('text')) + '\n--- impl\n' + str(ci.get('text'))
@@ -130,6 +114,13 @@ def run_scenarios(scens, keep_ctx=False, project_what=None, stats=None):
                         vals.append(ctx.dec(a))
                     except Exception:
                         pass
+            for k in ('a', 'b', 'obj'):
+                if isinstance(sc.get(k), dict) and 'obj' in sc[k]:
+                    for _, a in sc[k]['obj'][1]:
+                        try:
+                            vals.append(ctx.dec(a))
+                        except Exception:
+                            pass
             for k in ('kwargs',):
                 for _, a in sc.get(k, []):
                     try:
